@@ -226,6 +226,7 @@ def gen_derived(rng, n):
         simple = rng.random() < 0.7
         spec = H.rand_spec(rng, ring=ring, simple=simple, n=dim, names=H.rand_names(rng, simple, rng.randint(1, 3)))
         alph = H.spec_names(spec)
+        spec["relations"] = [H.join_word(H.rand_letters(rng, alph, rng.randint(1, 4)), simple) for _ in range(rng.randint(0, 2))]
         inp = {"kind": kind, "spec": spec}
         q = {"q": "derived", "kind": kind}
         if kind.startswith("conjugate"):
@@ -297,7 +298,8 @@ def _derive(rep, inp):
 def run_derived(inp):
     rep = H.build_rep(inp["spec"])
     d = _derive(rep, inp)
-    out = {"keys": list(d.generators), "vals": [], "bounds": []}
+    out = {"keys": list(d.generators), "vals": [], "bounds": [],
+           "rels": [list(d.parse_word(r)) for r in d.relations]}
     for w in inp["words"]:
         out["vals"].append(H.guard(lambda: H.asl(d[w["s"]], inp["spec"]["ring"])))
         out["bounds"].append(H.norm_bound(d, w["l"]))
@@ -323,6 +325,8 @@ def judge_derived(inp, obs, lr):
         return None
     if r["ok"]["gens"] != obs["keys"]:
         return {"expected": r["ok"]["gens"], "observed": obs["keys"], "tags": dict(tags, what="keys")}
+    if r["ok"]["rels"] != obs["rels"]:
+        return {"expected": r["ok"]["rels"], "observed": obs["rels"], "tags": dict(tags, what="relations")}
     for w, v, b, m in zip(inp["words"], obs["vals"], obs["bounds"], r["ok"]["vals"]):
         if H.exc_name(v) or not H.mclose(v, H.decm(m), b):
             return {"expected": m, "observed": v, "tags": dict(tags, what="value"), "word": w["s"]}
@@ -478,7 +482,8 @@ def gen_dor(rng, n):
         alph = H.spec_names(spec)
         yield {"kind": kind, "spec": spec, "w": H.rand_letters(rng, alph, rng.choice([0, 1, 2, 4, 7])),
                "C": H.enc(H.gen_matrix(rng, dim, "Q")), "sub": [H.rand_letters(rng, alph, rng.randint(1, 3)) for _ in range(2)],
-               "other": [H.enc(H.gen_matrix(rng, 2, "Q")) for _ in spec["hist"]], "sub_inv": rng.random() < 0.5}
+               "other": [H.enc(H.gen_matrix(rng, 2, "Q")) for _ in spec["hist"]], "sub_inv": rng.random() < 0.5,
+               "ci": rng.random() < 0.5, "assign_wrapped": rng.random() < 0.6}
 
 
 def _sym2_ref(A):
@@ -514,7 +519,7 @@ def run_dor(inp):
     elif kind == "dual":
         got, want = ev(rep.dual()), Ai.T
     elif kind == "compose":
-        got, want = ev(rep.compose(lambda M: np.kron(M, M))), np.kron(A, A)
+        got, want = ev(rep.compose(lambda M: np.kron(M, M), compute_inverses=inp.get("ci", False))), np.kron(A, A)
     elif kind == "tensor":
         oth = R.Representation(parse_simple=simple)
         for h, m in zip(spec["hist"], inp["other"]):
@@ -523,7 +528,8 @@ def run_dor(inp):
     elif kind == "sym2":
         got, want = ev(rep.symmetric_square()), _sym2_ref(A)
     elif kind in ("gln_adjoint", "sln_adjoint"):
-        d = rep.gln_adjoint() if kind == "gln_adjoint" else rep.sln_adjoint()
+        ci = inp.get("ci", False)
+        d = rep.gln_adjoint(compute_inverses=ci) if kind == "gln_adjoint" else rep.sln_adjoint(compute_inverses=ci)
         got = ev(d)
         # Ad(A) X = A X A^-1 on the basis used by the library: check the action on a random (traceless) X
         X = C - (np.trace(C) / n) * np.eye(n) if kind == "sln_adjoint" else C
@@ -537,17 +543,27 @@ def run_dor(inp):
         want = np.asarray(rep[subw[0]]) @ np.asarray(rep[subw[1]]) @ np.linalg.inv(np.asarray(rep[subw[0]], dtype=float))
     elif kind == "astype":
         got, want = ev(rep.astype(float)), A
-    elif kind == "projective":
-        from geometry_tools import projective
-        pr = projective.ProjectiveRepresentation(rep)
+    elif kind in ("projective", "hyperbolic"):
+        from geometry_tools import projective, hyperbolic
+        cls, wrap = ((projective.ProjectiveRepresentation, projective.Transformation) if kind == "projective"
+                     else (hyperbolic.HyperbolicRepresentation, hyperbolic.Isometry))
+        if inp.get("assign_wrapped"):
+            # generators assigned as wrapped objects (unwrap_func on the way in, wrap_func on the way out)
+            pr = cls(parse_simple=simple)
+            for h in spec["hist"]:
+                pr[h["g"]] = wrap(H.tonp(h["m"], spec["ring"]).astype(float), column_vectors=True)
+        else:
+            pr = cls(rep)
         got, want = np.asarray(pr[w].matrix).T, A
         comp = pr.elements([w, w])
         if not np.allclose(np.asarray(comp.matrix)[1].T, A, atol=1e-7 * (1 + np.abs(A).max())):
             return {"err": float("inf"), "what": "elements"}
-    elif kind == "hyperbolic":
-        from geometry_tools import hyperbolic
-        hr = hyperbolic.HyperbolicRepresentation(rep)
-        got, want = np.asarray(hr[w].matrix).T, A
+        if kind == "projective":
+            # conjugation by a wrapped transformation: w -> C^-1 rho(w) C
+            cj = pr.conjugate(projective.Transformation(C, column_vectors=True))
+            cw = np.asarray(cj[w].matrix).T
+            if not np.allclose(cw, np.linalg.inv(C) @ A @ C, atol=1e-7 * (1 + np.abs(A).max()) * (1 + np.abs(C).max()) ** 2 * 50):
+                return {"err": float("inf"), "what": "conjugate by a Transformation"}
     # every formula involves rho(w) and rho(w)^-1: bound by the norms of the letters and of their inverses
     nb = H.norm_bound(rep, inp["w"]) * H.norm_bound(rep, [H.swapcase(x) for x in inp["w"]])
     b = 10 * nb ** 2 * (1 + float(np.abs(C).max()) ** 2)
@@ -597,20 +613,22 @@ def gen_foxo(rng, n):
         spec["relations"] = [H.join_word(r, simple) for r in rels]
         alph = H.spec_names(spec)
         yield {"spec": spec, "w": H.rand_letters(rng, alph, rng.choice([1, 2, 3, 5, 8, 13, 21])),
-               "cplx": rng.random() < 0.25 and spec["ring"] == "Q", "phase": [1, 2]}
+               "cplx": rng.random() < 0.25 and spec["ring"] == "Q", "phase": [1, 2],
+               "C": H.enc(H.gen_matrix(rng, dim, "Q", "uni"))}
 
 
 def run_foxo(inp):
     rep = _cbuild(inp) if inp["cplx"] and not inp["spec"]["relations"] else H.build_rep(inp["spec"])
     rep.relations = list(inp["spec"]["relations"])
     n = inp["spec"]["n"]
-    w = H.join_word(inp["w"], inp["spec"]["simple"])
+    letters = list(inp["w"])      # a list of generator names (older corpus entries: a simple string)
+    w = H.join_word(letters, inp["spec"]["simple"])
     I = np.eye(n)
     gens = list(rep.asym_gens())
     D = np.asarray(rep.differential(w))
     lhs = np.asarray(rep[w]) - I
     rhs = sum(D[:, k * n:(k + 1) * n] @ (np.asarray(rep[g]) - I) for k, g in enumerate(gens))
-    b = H.norm_bound(rep, inp["w"]) * 10
+    b = H.norm_bound(rep, letters) * 10
     out = {"fundamental": float(np.max(np.abs(lhs - rhs))) / (1 + b), "shape_ok": D.shape == (n, n * len(gens))}
     # D @ coboundary = I - rho(w)
     cb = np.asarray(rep.coboundary_matrix())
@@ -621,8 +639,13 @@ def run_foxo(inp):
         out["satisfied"] = sat
         out["cocycle_coboundary"] = float(np.max(np.abs(cc @ cb)))
         out["cc_shape_ok"] = cc.shape == (n * len(rep.relations), n * len(gens))
-        # the relations are satisfied by construction: a cocycle matrix that is identically zero is suspicious
-        # only if the differentials themselves are not (checked by the fundamental formula above)
+        # derived representations inherit the relations, hence have the same kind of cocycle matrix
+        Cm = H.tonp(inp["C"]) if "C" in inp else np.eye(n) + np.triu(np.ones((n, n)), 1)
+        for name, d in (("copy", R.Representation(rep)), ("conjugate", rep.conjugate(Cm)), ("dual", rep.dual())):
+            ccd = np.asarray(d.cocycle_matrix())
+            cbd = np.asarray(d.coboundary_matrix())
+            out["derived_" + name] = {"rels": list(d.relations) == list(rep.relations), "shape": ccd.shape == cc.shape,
+                                      "ann": float(np.max(np.abs(ccd @ cbd))) / (1 + float(np.abs(Cm).max()) ** 4)}
     return out
 
 
@@ -635,6 +658,10 @@ def judge_foxo(inp, obs, lr):
     for k in ("fundamental", "coboundary"):
         if not obs[k] <= 1e-8:
             return {"expected": "rho(w) - I = sum_g D_g(w) (rho(g) - I)", "observed": obs, "tags": dict(ps, law=k)}
+    for k, v in obs.items():
+        if k.startswith("derived_") and (not v["rels"] or not v["shape"] or (obs["satisfied"] <= 1e-9 and not v["ann"] <= 1e-7)):
+            return {"expected": "a derived representation keeps the relations; its cocycle matrix annihilates its coboundary matrix",
+                    "observed": {k: v}, "tags": dict(ps, law="cocycle", derived=k[8:])}
     if "cocycle_coboundary" in obs and obs["satisfied"] <= 1e-9 and not obs["cocycle_coboundary"] <= 1e-7:
         return {"expected": "cocycle_matrix @ coboundary_matrix = 0 for satisfied relations", "observed": obs,
                 "tags": dict(ps, law="cocycle")}
